@@ -124,10 +124,11 @@ def _model_sheet():
         rule(IMPORT, href='imp2'),
         rule(PAGE, style=style([ident('x')], [uri('p-own')]), cssRules=[rule(MARGIN, style=style([uri('p-box1')])), rule(MARGIN, style=style([ident('none')]))]),
         rule(STYLE, style=style([ident('nothing')])),
+        rule(STYLE, style=style([uri('s1a')])),  # the same URL text a second time: one more occurrence, one more call of the replacer
     ]
     sheet = Sheet(cssRules=rules)
     imports = ['imp1', 'imp2']
-    others = ['s1-overridden', 's1a', 's1b', 'm1', 'mp-own', 'mp-box', 'p-own', 'p-box1']
+    others = ['s1-overridden', 's1a', 's1b', 'm1', 'mp-own', 'mp-box', 'p-own', 'p-box1', 's1a']
     return sheet, imports, others
 
 
@@ -141,7 +142,7 @@ def _all_values(base, out):
 
 
 def r19c(chk, rid='R19.c'):
-    chk.rule(rid, 'one enumeration for reading and replacing, decided by evaluation: getUrls, replaceUrls and its CSSStyleDeclaration overload (with _style_declarations, _uri_values and any helper they call) are evaluated on their syntax trees over a model sheet - @import rules, overridden and effective declarations, url() and other values, an @media rule with nested rules, @page rules that have own declarations and margin boxes: every @import target and every url() value is listed exactly once, imports first; the replacer is called exactly once with each of them and its result is stored in the attribute it was read from; nothing else is written; ignoreImportRules leaves the @import targets alone')
+    chk.rule(rid, 'one enumeration for reading and replacing, decided by evaluation: getUrls, replaceUrls and its CSSStyleDeclaration overload (with _style_declarations, _uri_values and any helper they call) are evaluated on their syntax trees over a model sheet - @import rules, overridden and effective declarations, url() and other values, an @media rule with nested rules, @page rules that have own declarations and margin boxes: every @import target and every url() value is listed exactly once, imports first; the replacer is called exactly once for each occurrence (a URL that occurs twice is handed over twice) and its result is stored in the attribute it was read from; nothing else is written; ignoreImportRules leaves the @import targets alone')
     chk.assume('R19.c: sheets, rules, declarations and values are model objects; getProperties(all=False) of the model returns only the last declaration of a name, so all=True is observable')
     import itertools
 
@@ -157,7 +158,7 @@ def r19c(chk, rid='R19.c'):
     chk.ob(rid, INIT, 'getUrls', 'every @import target and every url() value is listed exactly once', ok,
            f'listed {got}; the sheet holds {imports + others}' + (': URLs of overridden declarations or of rules that have both nested rules and own declarations are missing' if isinstance(got, list) and len(got) < len(imports + others) else ''))
     if isinstance(got, list):
-        chk.ob(rid, INIT, 'getUrls', 'imports first, in document order; then the url() values with sibling rules in document order', got[:len(imports)] == imports and [u for u in got if u in ('s1a', 'm1', 'p-own')] == ['s1a', 'm1', 'p-own'], f'order {got}')
+        chk.ob(rid, INIT, 'getUrls', 'imports first, in document order; then the url() values with sibling rules in document order', got[:len(imports)] == imports and [u for u in got if u in ('s1a', 'm1', 'p-own')] == ['s1a', 'm1', 'p-own', 's1a'], f'order {got}')
     fns = _replace_functions(m)
     main = [f for f in fns if f.name == 'replaceUrls']
     over = [f for f in fns if f.name != 'replaceUrls']
